@@ -243,7 +243,8 @@ def run_check(pid, tier, seed, work, t0):
                             % (name, r.get("tail", "")))
         mcs.append(r)
     # 2. behaviours replayed into the real code
-    traces, gstats = (make_pairs if cfg.get("roles") else make_traces)(pid, cfg, tier, seed, work)
+    maker = cfg.get("maker") or (make_pairs if cfg.get("roles") else make_traces)
+    traces, gstats = maker(pid, cfg, tier, seed, work)
     for mk in cfg["extra_sources"]:
         more, st = mk(pid, cfg, tier, seed, work, len(traces))
         traces += more
@@ -331,6 +332,32 @@ def finish(pid, cfg, tier, seed, t0, mcs, traces, gstats, val, viol, hits, drift
              len(traces), steps_total, val["wall"], len(viol), len(seen), len(drift), wall))
     return 1 if viol else 0
 
+
+# ---------------------------------------------------------------------------------------
+# C16: cooperative interleaving
+# ---------------------------------------------------------------------------------------
+def make_coop(pid, cfg, tier, seed, work):
+    import coop
+    ti = 0 if tier == "quick" else 1
+    n = cfg["n"][ti]
+    prof = dict(gen_profile(cfg))
+    traces = []
+    for i in range(n):
+        be = cfg["backends"][i % len(cfg["backends"])]
+        traces.append(coop.run_coop(seed * 1000003 + i * 7919 + 53, prof, be, i))
+        if impl.TIMEOUTS[0] >= 3:
+            break
+    nsteps = sum(1 for t in traces for s in t["steps"] if s["op"] == "CoopNext")
+    return traces, {"scenarios": len(traces), "generator_steps": nsteps}
+
+
+reg("C16", exc_ops={"CoopNext"}, prefixes=["C16.", "C02.inv"], maker=make_coop, mc=[("coop", None, None)],
+    weights={"Clear": 0, "Reopen": 0, "AddPage": 30, "IndexBatchCrawl": 20, "CreateWe": 8},
+    profile={"raw": 0.0, "long": 0.3, "nlrus": 9, "extend": 0.3}, n=(100, 1200),
+    nontrivial=lambda tr: sum(1 for s in tr["steps"] if s["op"] == "CoopNext") >= 6,
+    title="Cooperative interleaving",
+    technique="TLA+ step-wise generator model (TraphCoop) with ALL interleavings model-checked (MC_coop) + TLC "
+              "validation, step by step, of real generators advanced with next() under random schedules")
 
 # ---------------------------------------------------------------------------------------
 # C17: prefix variations (rows, not histories)
